@@ -13,6 +13,7 @@ CLAIMED = {
  'C05': 'Theorems (Properties/C05.v): bytes appended = header++meta++data with offset/CRC patched, independent of the single-pass threshold; Entry::load round trip for every key/meta/data length; header codec round trip; CRC-32C detects every error burst of <= 32 bits at every position and length (proved from scratch on the bit-serial model), byte-level corollaries; data with a different checksum is never returned. Correspondence: blob files byte-exact (incl. CRCs, thresholds 4096/81920), reads after 1-bit/1-byte/burst damage with index in memory, on disk, regenerated; debug and release builds.',
  'C02': 'Theorems (Properties/C02.v): for every state whose indexes describe their blobs (established after every history), read_all_with_deletion_marker = all records of the key in rank order cut after the first marker (the per-blob cut + stable re-sort + global cut of the code is proved equal to one global sort and cut, any number of blobs); read_all = that without the marker; read_with(meta) = first listed record with that meta, else Deleted if the list ends in a marker, else NotFound (per-blob lookup merged by latest proved equal to the global lookup). delete return values and duplicate-write acknowledgements are tied by correspondence with the model (both policies).',
  'C09': 'PARTIAL. Model of the B+tree serializer and reader (Index/BPTree.v: leaf packing, node layering with byte offsets, descent, in-leaf search, left/right expansion, load) tied to the crate by byte-exact comparison of index files and of every lookup (hook H2) over shapes up to 3 node levels for K in {1,4,32,250,1000}; theorem so far: bounded sweep proved by kernel computation (all key counts 1..120, three version distributions, small block size exercising deep trees). The unbounded equivalence theorem is in progress (DESIGN.md C09).',
+ 'C13': 'Theorems (Properties/C13.v) on the worker part of the L3 model: every operation in every state keeps the worker alive except a background create/close/restore request made when it cannot apply -- which kills it silently and for good (refutation = finding F1, proved for all states); with a live worker an overflow of an aged active blob switches to a fresh blob, requested dumps complete at the quiescence point, close returns. Correspondence + oracle: bg requests in every active-blob state, then a real overflow past max_data_in_blob with sleeps beyond the 200 ms debounce, dump request, close.',
  'C15': 'Theorems (Properties/C15.v): counters = spec_counts (records physically appended per blob incl. markers, blobs that exist) in every state satisfying the per-blob invariant (kept after every history) provided no closed-list slot was vacated; index count = number of records; ids strictly increasing and next_blob_id above all after every history; blobs_count refuted after close+restore (F3 witness by computation). Correspondence + oracle: counts / disk_used / directory listing after every op of generated histories; F3 and F14 are listed known findings.',
  'C10': 'Theorems (Properties/C10.v) over the model of AtomicBitVec/Bloom: no false negative for every hash family, bit count and key sequence; off-loaded file probe = in-memory probe through the bincode layout; merge keeps keys. The bit-index functions the proofs unfold are regenerated from the Rust source on every run; the rest is tied by byte-exact differential runs (Bloom::to_raw with the aHash model, probes).',
 }
